@@ -110,7 +110,9 @@ impl Ambient {
         let sym = unsafe { libc::dlsym(libc::RTLD_DEFAULT, name.as_ptr()) };
         if !sym.is_null() {
             let f: extern "C" fn(i64, i64, i32, u64) = unsafe { std::mem::transmute(sym) };
-            f(self.clock_offset_s, self.clock_step_s, self.rand_seed.is_some() as i32, self.rand_seed.unwrap_or(0));
+            // OS randomness is always a seeded stream inside a simulated run (never real entropy), so a
+            // run whose result depends on it still replays exactly
+            f(self.clock_offset_s, self.clock_step_s, 1, self.rand_seed.unwrap_or(0x5eed_0003));
         }
     }
 }
